@@ -783,6 +783,21 @@ theorem C06_reference_targets_last_definition (env : Env) (input : Str) (c : Col
   parseEventsLoop_last env input _ {} c (Inv.init env) ⟨LastI.empty env, LastC.empty env⟩
     (pullEvents_evOK env.cs env.ext input) h
 
+/-- **C06, every clause, with the exact target.**  `C06_holds_full` together with "the target of a regular
+    reference is the LAST earlier definition of its name" (`LastI`, `LastC`): for every input, extension set
+    and converter environment, whenever `parse` returns a recipe. -/
+theorem C06_holds_full_last (env : Env) (input : Str) (c : Col Rat)
+    (h : (parseRecipe (α := Rat) env input).output = some c) :
+    (RecipeInv c ∧ OrdFinal c ∧ CookwareRefsOK c ∧ BacklinksSound c ∧ StepRefsOK c ∧ SectionRefsOK c ∧
+      RefNamesMatch env c ∧ RelationsShaped c ∧ TextItemsNonEmpty c ∧
+      ((∀ d ∈ (parseRecipe (α := Rat) env input).diags.toList, d.sev ≠ Sev.error) →
+        (∀ (k : Nat) (ig : Ingredient (ScalableValue Rat)), c.ingredients[k]? = some ig →
+          (ig.relation.relation.isReference = true ↔ ig.modifiers.contains Modifiers.REF = true)) ∧
+        (∀ (k : Nat) (cw : Cookware (ScalableValue Rat)), c.cookware[k]? = some cw →
+          (cw.relation.isReference = true ↔ cw.modifiers.contains Modifiers.REF = true)))) ∧
+    LastI env c.ingredients ∧ LastC env c.cookware :=
+  ⟨C06_holds_full env input c h, C06_reference_targets_last_definition env input c h⟩
+
 /-! non-vacuity: in the fold example above (`@a … @&A`: ingredient 3 refers to ingredient 0, the two
     intermediate references in between carry REF) the clause holds; it rejects a table in which a second
     definition of the name sits between target and referrer -/
